@@ -62,6 +62,31 @@ def run(ctx):
     ctx.count(res["cases"])
     for d in res["diffs"][:3]:
         ctx.tie_broken("T2-fn isReady/isBlocked/readyTasks", {"first_difference": fndiff.first_difference(d["go"], d["model"]), "req": d["req"]})
+    # exhaustive small scope: two epics (E2 may depend on E1), E1's children in every state, a todo child of E2 (claimed or not,
+    # depending or not on an orphan task in every state, possibly pruned) — model vs Go, and the manual's definition on Go's answer
+    import subprocess
+    p = subprocess.run([ctx.ev, "fn-ready-enum"], stdout=subprocess.PIPE, text=True)
+    cases = [json.loads(l) for l in p.stdout.splitlines()]
+    outs = common.model_batch([c["req"] for c in cases])
+    nd = 0
+    for c, o in zip(cases, outs):
+        go = c["go"]
+        mo = {k: v for k, v in o.items() if k not in ("tag", "compact")}
+        if common.canon(go) != common.canon(mo):
+            nd += 1
+            if nd <= 2:
+                ctx.tie_broken("T2-fn ready/blocked (exhaustive small scope)", {"first_difference": fndiff.first_difference(go, mo)})
+        g = go.get("graph")
+        if g:
+            ctx.count(1, key=("enum", tuple((t["st"], t["claimed_by"] != "") for t in g["tasks"]), len(g["deps"])))
+            ev_trace = [{"hand_written_log": [e for e in c["req"]["events"]]}]
+            if check_graph(ctx, g, ev_trace, "small-scope log"):
+                break
+            want = oracles.ready_order(g, c["req"]["epic"])
+            if go["ready_order"] != want:
+                ctx.violation("C08 claim order differs from (created_at, id) over the ready set", "readyTasks gives %s, the manual's definition %s" % (go["ready_order"], want), {"trace": ev_trace})
+                break
+    ctx.tie("T2-fn ready/blocked (exhaustive small scope)", cases=len(cases), exhaustive=True, disagreements=nd)
     r = gen.Rng(ctx.seed * 1000003 + 8)
     for h in range(25 if ctx.quick else 400):
         run_history(ctx, r.fork(), 40, WEIGHTS, oracle)
